@@ -93,7 +93,10 @@ enum Sub
     M_SIZE_BYTES_CURSOR, // full cursor traversal, then size_bytes(m, c)
     M_CURSOR_WALK,       // scripted walk (C04)
     M_VISIT_FULL,        // full-depth recording visit with stop_at (C19)
-    M_ENCODE,            // real encoder driven by a value tree (script)
+    M_ENCODE,            // real encoder driven by a value tree (script); arg: 0 random access, 1 cursor-based; arg2: 0 = all steps, k+1 = stop after k steps (torn encode)
+    D_HISTORY,           // data member: a scripted history of dynamic-array operations (rq.dops); arg: how the view is obtained (0 named, 1 by tag, 2 cursor init, 3 by tag + cursor init)
+    G_INFO,              // group: address + numInGroup as the view reports it
+    D_INFO,              // data: address + length and payload hash as the view reports them
     SUB_COUNT
 };
 
@@ -117,6 +120,36 @@ struct Decision
     u64 value = 0;          // what the setter writes (the model supplies the value the frame already holds)
 };
 
+// One dynamic-array operation of a D_HISTORY script (the same table as dynarr's, reduced to what is
+// meaningful on a generated data member): kind, position, count, value.
+struct DataOp
+{
+    int kind = 0;
+    u64 a = 0, b = 0;
+    u8 v = 0;
+};
+enum DataOpKind
+{
+    DO_PUSH_BACK,
+    DO_POP_BACK,
+    DO_INSERT1,      // insert(begin()+a, v)
+    DO_INSERTN,      // insert(begin()+a, b, v)
+    DO_INSERT_RANGE, // insert(begin()+a, first, last) with b elements v, v+1, ...
+    DO_INSERT_IL,    // insert(begin()+a, {v, v+1, v+2})
+    DO_ERASE1,       // erase(begin()+a)
+    DO_ERASE2,       // erase(begin()+a, begin()+a+b)
+    DO_RESIZE,       // resize(a)
+    DO_RESIZE_V,     // resize(a, v)
+    DO_RESIZE_DI,    // resize(a, default_init)
+    DO_ASSIGN_N,     // assign(a, v)
+    DO_ASSIGN_RANGE, // assign(first, last) with a elements v, v+1, ...
+    DO_ASSIGN_IL,    // assign({v, v+1})
+    DO_ASSIGN_STRING,// assign_string of a characters 'a' + (v % 26)
+    DO_ASSIGN_RANGE2,// assign_range(container) with a elements
+    DO_CLEAR,
+    DO_KINDS
+};
+
 struct CursorStep
 {
     int level;       // level index
@@ -129,6 +162,10 @@ struct CursorStep
     long long addr_off = 0; // returned view's address - p
     long long cursor_off = 0; // c.pointer() - p after the call
     long long cursor_before = 0;
+    // groups and data members obtained through a non-skip wrapper: what the returned view itself reports
+    // (numInGroup / length as that view decodes it, and for data a hash of the payload it exposes)
+    bool has_view = false;
+    u64 vsize = 0, vhash = 0;
 };
 
 enum EventKind
@@ -176,6 +213,7 @@ struct Req
     const std::vector<Decision>* script = nullptr;
     long long stop_at = -1; // M_VISIT_FULL: callback number that returns true (1-based), -1 never
     const void* tree = nullptr; // M_ENCODE: const Node*
+    const std::vector<DataOp>* dops = nullptr; // D_HISTORY
 };
 
 struct Res
@@ -187,6 +225,8 @@ struct Res
     bool valid = false; // M_SBC
     bool unsupported = false; // the op does not exist for this target (e.g. operator[] on a nested group)
     long long cursor_off = -1;
+    bool has_view = false; // G_ADDR / D_ADDR: numInGroup / length (+ payload hash) as the view reports them
+    u64 vsize = 0, vhash = 0;
     std::vector<CursorStep> csteps;
     std::vector<Event> events;
     // set when a by-tag form was asked for but does not exist although the named accessor with the same
@@ -195,8 +235,8 @@ struct Res
     void reset()
     {
         api_gap = nullptr;
-        has_bits = has_addr = valid = unsupported = false;
-        bits = size = 0;
+        has_bits = has_addr = valid = unsupported = has_view = false;
+        bits = size = vsize = vhash = 0;
         addr_off = 0;
         cursor_off = -1;
         csteps.clear();
